@@ -124,11 +124,16 @@ def strip_comments(text):
     return ''.join(out)
 
 
-def grep_forbidden():
+def grep_forbidden(prop=None):
+    """forbidden constructs in the Lean sources of this property (files named after another
+    property are that property's business: several developers may be editing concurrently)"""
     hits = []
     for root, _, files in os.walk(os.path.join(LEAN, 'Glom')):
         for fn in files:
             if fn.endswith('.lean'):
+                m = re.match(r'C(\d\d)', fn)
+                if prop and m and ('C' + m.group(1)) != prop:
+                    continue
                 p = os.path.join(root, fn)
                 code = strip_comments(open(p).read())
                 for ln, line in enumerate(code.splitlines(), 1):
@@ -296,7 +301,7 @@ def main_check(mod, argv):
     broken_modules = [m for m, ok in b['props_ok'].items() if not ok]
 
     # 2. audit
-    forb = grep_forbidden()
+    forb = grep_forbidden(prop)
     aud = {'ok': False, 'theorems': [], 'bad': []}
     good_modules = [m for m in mod.LEAN_MODULES if b['props_ok'].get(m)]
     if good_modules:
